@@ -291,15 +291,47 @@ pub fn run(opts: &Opts, pi: &PropInfo) -> i32 {
         probes.push(Probe { name: format!("c17_twin_{}", i), source: probe_source(&twin, true) });
         meta.push((format!("c17_twin_{}", i), true, "valid twin".into()));
         probes.push(Probe { name: format!("c17_bad_{}", i), source: probe_source(&bad, false) });
-        meta.push((format!("c17_bad_{}", i), false, what));
+        meta.push((format!("c17_bad_{}", i), false, what.clone()));
+        // the same two definitions in ONE compilation, the valid one first, under the same name in two modules:
+        // whatever the macro remembers about a name must not carry over to the other definition
+        if matches!(i % 8, 0 | 5 | 6 | 7) {
+            let wrap = |d: &Def, m: &str| format!("pub mod {} {{\n    use super::*;\n{}\n}}\n", m, d.source);
+            let both = Def { source: format!("{}{}", wrap(&twin, "good"), wrap(&bad, "bad")), value: bad.value.replace("T::", "bad::T::").replace("T(", "bad::T(").replace("T {", "bad::T {"), ty: "bad::T".into() };
+            let mut src_text = probe_source(&both, false);
+            // (the valid definition is used too, so that it is expanded and type-checked first)
+            src_text = src_text.replace("fn main() {\n", &format!("fn main() {{\n    let g: good::T = {};\n    let mut gs = CountSink(0);\n    let _ = g.serialize(&mut gs);\n", twin.value.replace("T::", "good::T::").replace("T(", "good::T(").replace("T {", "good::T {")));
+            probes.push(Probe { name: format!("c17_bad_pair_{}", i), source: src_text });
+            meta.push((format!("c17_bad_pair_{}", i), false, format!("{}, after a valid definition of the same name in the same compilation", what)));
+        }
     }
-    let res = match probes::evaluate("c17", &probes, &|_| true) {
+    let replay_rel = opts.replay.as_ref().and_then(|p| crate::read_json(&p.to_string_lossy())).map_or(false, |r| r["env"]["mutation"].as_str().map_or(false, |m| m.contains("without debug assertions")));
+    let res = match probes::evaluate(if replay_rel { "c17rel" } else { "c17" }, &probes, &|_| true) {
         Ok(r) => r,
         Err(e) => {
             eprintln!("INFRASTRUCTURE: {}", e);
             return 2;
         }
     };
+    // the hand-declared pointer holders once more in a build without debug assertions (what guards the run-time
+    // path must not be a debug assertion)
+    let rel: Vec<Probe> = probes.iter().filter(|p| p.name.starts_with("c17_bad_handle_")).map(|p| Probe { name: format!("{}_rel", p.name), source: p.source.clone() }).collect();
+    let mut res = res;
+    if !rel.is_empty() {
+        match probes::evaluate("c17rel", &rel, &|_| true) {
+            Ok(r) => {
+                for p in &rel {
+                    let what = meta.iter().find(|m| format!("{}_rel", m.0) == p.name).map(|m| m.2.clone()).unwrap_or_default();
+                    meta.push((p.name.clone(), false, format!("{}, built without debug assertions", what)));
+                }
+                res.extend(r);
+                probes.extend(rel);
+            }
+            Err(e) => {
+                eprintln!("INFRASTRUCTURE: {}", e);
+                return 2;
+            }
+        }
+    }
     let mut agg = Agg::default();
     let mut infra = None;
     let mut distinct = std::collections::BTreeSet::new();
